@@ -139,7 +139,8 @@ let run_case (line : string) =
          | Model.POk v -> Printf.printf "R %d ret %d\n" idx (int_of_n v)
          | Model.PPanic p -> Printf.printf "R %d panic %d\n" idx (int_of_n (Model.ppanic_code p))
          | Model.PFuel -> Printf.printf "R %d fuel\n" idx);
-        (* ghost: persisted memos whose flattened origin dropped an untracked dependency *)
+        (* persisted memos whose flattening expanded a dependency with untracked reads (serialised as
+           untracked since /repo e43c20c); informational, not compared *)
         (match o with
          | Model.OSnapshot ->
            let lost = ref [] in
